@@ -85,6 +85,8 @@ class Engine:
         """Cheap pruning of infeasible paths (never prunes on unknown)."""
         if not st.pc:
             return True
+        if getattr(self, "spec_mode", False) and not getattr(self, "defining", None):
+            return True  # contract clauses are merged into one formula: pruning buys nothing there
         defining = getattr(self, "defining", None)
         pcs = st.pc
         if defining:
@@ -98,6 +100,11 @@ class Engine:
         if z3.is_false(simp(last)):
             self.stats["pruned"] += 1
             return False
+        # quantified conjuncts are left out of the pruning query (z3 does not honour small timeouts
+        # on them); dropping conjuncts only weakens the query, so 'unsat' stays a sound reason to prune
+        pcs = [c for c in pcs if not self._has_quantifier(c)]
+        if not pcs:
+            return True
         s = z3.Solver()
         s.set("timeout", 150)
         s.add(*pcs)
@@ -106,6 +113,26 @@ class Engine:
             self.stats["pruned"] += 1
             return False
         return True
+
+    def _has_quantifier(self, term, _cache={}):
+        key = term.get_id()
+        hit = _cache.get(key)
+        if hit is None:
+            hit = False
+            stack, seen = [term], set()
+            while stack:
+                t = stack.pop()
+                i = t.get_id()
+                if i in seen:
+                    continue
+                seen.add(i)
+                if z3.is_quantifier(t):
+                    hit = True
+                    break
+                if z3.is_app(t):
+                    stack.extend(t.children())
+            _cache[key] = hit
+        return hit
 
     def _mentions(self, term, names, _cache={}):
         key = term.get_id()
